@@ -45,6 +45,13 @@ SPECS = [
       "cpt": "Nat"},
      [("scores", "Arr α"), ("threshold", "α"), ("min_detection_interval", "Nat")], "List Nat"),
 ]
+SPECS.append(
+    ("pelt_changepoints", "skchange/change_detectors/pelt.py", "get_changepoints",
+     {"changepoints": "List Nat", "i": "Int", "cpt_i": "Nat",
+      # bound on the number of iterations of the `while` loop (the loop variable strictly decreases from len - 1 to -1);
+      # a run that needs more leaves the modelled subset (`none`)
+      "__fuel__": "prev_cpts_n + 1"},
+     [("prev_cpts", "Arr Nat")], "List Nat"))
 # translated functions that later ones may call: python name -> (lean name, argument types, result type)
 CALLABLE = {"where": ("where_", ["List Bool"], "List (Nat × Nat)")}
 GENERIC = "{α : Type} [LT α] [DecidableLT α] "
@@ -107,7 +114,12 @@ class Fn:
         if isinstance(e, ast.Compare) and len(e.ops) == 1 and isinstance(e.left, ast.Name) and self.types.get(e.left.id, "").startswith("Arr "):
             return "List Bool"
         if isinstance(e, ast.BinOp):
-            return "Nat"
+            return "Int" if "Int" in (self.typeof(e.left), self.typeof(e.right)) else "Nat"
+        if isinstance(e, ast.Subscript) and isinstance(e.value, ast.Name) and self.types.get(e.value.id, "").startswith("Arr ") \
+                and not isinstance(e.slice, ast.Slice):
+            return self.types[e.value.id][4:]
+        if self._is_drop_last_reversed(e) is not None:
+            return self._ty(self._is_drop_last_reversed(e))
         if isinstance(e, (ast.BoolOp, ast.Compare)) or (isinstance(e, ast.UnaryOp) and isinstance(e.op, ast.Not)):
             return "Bool"
         if isinstance(e, ast.Tuple):
@@ -121,15 +133,36 @@ class Fn:
             if len(parts) != len(e.elts):
                 raise Unsupported("tuple arity")
             return "(" + ", ".join(self.expr(x, w) for x, w in zip(e.elts, parts)) + ")"
+        if want == "Int" and isinstance(e, ast.BinOp) and isinstance(e.op, (ast.Add, ast.Sub, ast.Mult)):
+            op = {ast.Add: "+", ast.Sub: "-", ast.Mult: "*"}[type(e.op)]
+            return f"({self.expr(e.left, 'Int')} {op} {self.expr(e.right, 'Int')})"
         have = self.typeof(e)
+        if want == "Nat" and have == "Int":
+            raise Unsupported("an Int used where a natural is needed")
         s = self._raw(e)
         if want is None or want == have:
             return s
+        if want == "Int" and have == "Nat":
+            return f"(({s} : Nat) : Int)"
         if want == OPT and have == "Nat":
             return f"(some {s})"
         if want == "Nat" and have == OPT:
             return f"(← {s})"  # None where an int is needed: Python raises -> none
         raise Unsupported(f"cannot use {have} as {want}")
+
+    def _is_drop_last_reversed(self, e):
+        """`np.array(xs[-2::-1])` / `xs[-2::-1]` for a list `xs`: all but the last element, in reverse order"""
+        if isinstance(e, ast.Call) and isinstance(e.func, ast.Attribute) and isinstance(e.func.value, ast.Name) \
+                and e.func.value.id == "np" and e.func.attr == "array" and len(e.args) == 1 and not e.keywords:
+            e = e.args[0]
+        if (isinstance(e, ast.Subscript) and isinstance(e.value, ast.Name) and self.types.get(e.value.id, "").startswith("List ")
+                and isinstance(e.slice, ast.Slice) and e.slice.upper is None
+                and isinstance(e.slice.lower, ast.UnaryOp) and isinstance(e.slice.lower.op, ast.USub)
+                and isinstance(e.slice.lower.operand, ast.Constant) and e.slice.lower.operand.value == 2
+                and isinstance(e.slice.step, ast.UnaryOp) and isinstance(e.slice.step.op, ast.USub)
+                and isinstance(e.slice.step.operand, ast.Constant) and e.slice.step.operand.value == 1):
+            return e.value.id
+        return None
 
     def _is_argmax_slice(self, e):
         return (isinstance(e, ast.Call) and isinstance(e.func, ast.Attribute) and isinstance(e.func.value, ast.Name)
@@ -178,6 +211,8 @@ class Fn:
                 return str(e.value)
             raise Unsupported("constant " + repr(e.value))
         if isinstance(e, ast.Call) and isinstance(e.func, ast.Name) and e.func.id == "len" and len(e.args) == 1:
+            if isinstance(e.args[0], ast.Name) and self.types.get(e.args[0].id, "").startswith("Arr "):
+                return f"{nm(e.args[0].id)}_n"
             return f"{self.expr(e.args[0])}.length"
         if isinstance(e, ast.BoolOp):
             op = " && " if isinstance(e.op, ast.And) else " || "
@@ -193,7 +228,16 @@ class Fn:
             rel = {ast.Lt: "<", ast.LtE: "≤", ast.Gt: ">", ast.GtE: "≥", ast.Eq: "=", ast.NotEq: "≠"}.get(type(op))
             if rel is None:
                 raise Unsupported("comparison " + type(op).__name__)
-            return f"(decide ({self.expr(a, 'Nat')} {rel} {self.expr(b, 'Nat')}))"
+            num = "Int" if "Int" in (self.typeof(a), self.typeof(b)) else "Nat"
+            return f"(decide ({self.expr(a, num)} {rel} {self.expr(b, num)}))"
+        if isinstance(e, ast.Subscript) and isinstance(e.value, ast.Name) and self.types.get(e.value.id, "").startswith("Arr ") \
+                and not isinstance(e.slice, ast.Slice):
+            a = nm(e.value.id)
+            return f"(← pyIndex {a} {a}_n {self.expr(e.slice, 'Int')})"
+        if self._is_drop_last_reversed(e) is not None:
+            return f"{nm(self._is_drop_last_reversed(e))}.dropLast.reverse"
+        if isinstance(e, ast.BinOp) and self.typeof(e) == "Int":
+            return self.expr(e, "Int")
         if isinstance(e, ast.BinOp):
             a, b = self.expr(e.left, "Nat"), self.expr(e.right, "Nat")
             if isinstance(e.op, ast.Add):
@@ -328,6 +372,38 @@ class Fn:
                         f"  | [], st => some st\n"
                         f"  | {nm(vv)} :: rest, ({pat}) => ({call}).bind (fun st => {self.lean}loop{k} {pa} rest st)")
                     out.append(f"{pad}({pat}) ← {self.lean}loop{k} {pa} {self.expr(seq)} ({pat})")
+            elif isinstance(st, ast.While):
+                if st.orelse or "__fuel__" not in self.types:
+                    raise Unsupported("while loop without an iteration bound annotation")
+                if any(isinstance(n, (ast.For, ast.While, ast.Break, ast.Continue, ast.Return)) for b in st.body for n in ast.walk(b)):
+                    raise Unsupported("nested loop / break / continue / return inside a loop")
+                k = self.kl
+                self.kl += 1
+                outside = set()
+                for other in self.fn.body:
+                    if other is not st:
+                        outside |= {x.id for x in ast.walk(other) if isinstance(x, ast.Name)}
+                outside |= {x.id for x in ast.walk(st.test) if isinstance(x, ast.Name)}
+                local = [v for v in self.assigned(st.body) if v not in outside]
+                state = [v for v in state if v not in local]
+                missing = [v for v in state if v not in declared]
+                if missing:
+                    raise Unsupported(f"loop state variable(s) {missing} not initialised before the loop")
+                sty_t = " × ".join(self._ty(v) for v in state)
+                pat = ", ".join(nm(v) for v in state)
+                pa = self.pargs()
+                body = [f"  let mut {nm(v)} := {nm(v)}0" for v in state]
+                body += self.stmts(st.body, 1, state, set(state))
+                body.append(f"  return ({pat})")
+                self.aux.append(f"def {self.lean}body{k} {self.psig()} " + " ".join(f"({nm(v)}0 : {self._ty(v)})" for v in state)
+                                + f" : Option ({sty_t}) := do\n" + "\n".join(body))
+                self.aux.append(
+                    f"def {self.lean}loop{k} {self.psig()} : Nat → ({sty_t}) → Option ({sty_t})\n"
+                    f"  | 0, _ => none\n"
+                    f"  | fuel + 1, ({pat}) => if {self.expr(st.test, 'Bool')} then\n"
+                    f"      ({self.lean}body{k} {pa} " + " ".join(nm(v) for v in state) + f").bind (fun st => {self.lean}loop{k} {pa} fuel st)\n"
+                    f"    else some ({pat})")
+                out.append(f"{pad}({pat}) ← {self.lean}loop{k} {pa} ({self.types['__fuel__']}) ({pat})")
             elif isinstance(st, ast.Return):
                 out.append(f"{pad}return {self.expr(st.value, self.rettype)}")
             else:
@@ -391,6 +467,11 @@ def pyArgmaxFrom {α : Type} [LT α] [DecidableLT α] (a : Nat → α) : Nat →
     (the slice is clipped to the array); numpy raises on an empty slice -/
 def pyArgmaxSlice {α : Type} [LT α] [DecidableLT α] (a : Nat → α) (n lo hi : Nat) : Option Nat :=
   if lo < min hi n then some (pyArgmaxFrom a (lo + 1) (min hi n - lo - 1) lo - lo) else none
+
+/-- `a[i]` for an array of length `n` and a Python int `i`: a negative index (which Python would wrap) or one past the end
+    leaves the modelled subset -/
+def pyIndex {α : Type} (a : Nat → α) (n : Nat) (i : Int) : Option α :=
+  if 0 ≤ i ∧ i < (n : Int) then some (a i.toNat) else none
 
 /-- Python `a - b` on non-negative ints, read as naturals: a negative result leaves the modelled subset -/
 def pySub (a b : Nat) : Option Nat := if b ≤ a then some (a - b) else none
